@@ -309,7 +309,7 @@ func genGL(t *rapid.T, hostile bool) glSpec {
 	g.NilStyles = p("nilstyles", 6)
 	g.NilRegions = p("nilregions", 6)
 	g.Meta.Title = rapid.SampledFrom([]string{"", "Title", "A & B", "標題"}).Draw(t, "title")
-	g.Meta.Lang = rapid.SampledFrom([]string{"", "english", "french", "klingon", "de"}).Draw(t, "lang")
+	g.Meta.Lang = rapid.SampledFrom([]string{"", "english", "french", "klingon", "de", "English", " french "}).Draw(t, "lang")
 	g.Meta.Copyright = rapid.SampledFrom([]string{"", "(c)"}).Draw(t, "copyright")
 	g.Meta.Framerate = rapid.SampledFrom([]int{0, 25, 30, 24}).Draw(t, "framerate")
 	if rapid.Bool().Draw(t, "hasssa") {
@@ -346,7 +346,7 @@ func genGL(t *rapid.T, hostile bool) glSpec {
 		ids = []string{"a", "astisub-webvtt-default-style-id", "B", "s1", "0", "astisub"}
 	} else if rapid.IntRange(0, 4).Draw(t, "blankids") == 0 {
 		// names as SSA scripts have them: blanks inside, a tab, a leading digit
-		ids = []string{"Main Style", "Main  Style", "a\tb", "1 st", "Default", "sign top"}
+		ids = []string{"Main Style", "*Main Style", "a\tb", "1 st", "Default", "*Default"}
 	}
 	ns := rapid.IntRange(0, 6).Draw(t, "nstyles")
 	css := []string{"::cue { color: red }", "::cue(b) { }", "/* x */ ::cue(.loud) { font-size: 2em }"}
@@ -452,7 +452,7 @@ func genGL(t *rapid.T, hostile bool) glSpec {
 			for k := 0; k < nrun; k++ {
 				r := glRun{Text: genText(t, to), NilInline: p("runnil", 3)}
 				if hostile && rapid.IntRange(0, 9).Draw(t, "hugetext") == 0 {
-					r.Text = fmt.Sprintf("%0*d", rapid.SampledFrom([]int{200, 5000, 100000}).Draw(t, "hugelen"), 7)
+					r.Text = fmt.Sprintf("%0*d", rapid.SampledFrom([]int{200, 5000, 100000, 111, 112, 113, 110}).Draw(t, "hugelen"), 7)
 				}
 				if hostile && rapid.IntRange(0, 9).Draw(t, "emptytext") == 0 {
 					r.Text = ""
